@@ -146,7 +146,7 @@ impl Runner<'_> {
             }
         }
         self.w.emit(self.out, ev.clone());
-        crate::util::watch::arm(std::env::var("VH_CMD_TIMEOUT").ok().and_then(|v| v.parse().ok()).unwrap_or(240), &ev.to_string());
+        crate::util::watch::arm(std::env::var("VH_CMD_TIMEOUT").ok().and_then(|v| v.parse().ok()).unwrap_or(120), &ev.to_string());
         proc_
     }
 
